@@ -175,10 +175,15 @@ def code_objects_of(module):
         if isinstance(obj, type):
             items = list(vars(obj).values())
         for it in items:
-            it = getattr(it, '__func__', it)
-            code = getattr(it, '__code__', None)
-            if code is not None and code.co_filename == fn:
-                walk(code)
+            cands = [it]
+            if isinstance(it, property):
+                cands = [f for f in (it.fget, it.fset, it.fdel) if f is not None]
+            for c in cands:
+                c = getattr(c, '__func__', c)
+                c = getattr(c, '__wrapped__', c)
+                code = getattr(c, '__code__', None)
+                if code is not None and code.co_filename == fn:
+                    walk(code)
     return out
 
 
